@@ -18,6 +18,8 @@ import (
 	"net/http"
 	"net/http/httptest"
 	"os"
+	"reflect"
+	"runtime"
 	"sort"
 	"strconv"
 	"strings"
@@ -510,6 +512,42 @@ func vhLeak(t *vhToks) string {
 	return fmt.Sprintf("LEAK ok %d tokens=%d ok200=%d bytes=%d", n, len(usedA), ok200, bytesTotal)
 }
 
+// vhRoutes: which of the given (method, pattern) registrations does the REAL router hold, and with which handler?
+// httprouter has no public listing; Lookup with the pattern itself as the path selects the registration, and the
+// parameters it extracts (key = name, value = ":name") must be exactly the pattern's.  Used by checks/c16.py only when
+// the translator cannot resolve a registration statically.
+//   routes n (METHOD PATTERNHEX)*   =>   ROUTES (METHOD PATTERNHEX HANDLER|-)*
+func vhRoutes(t *vhToks) string {
+	n := t.int()
+	coordinator := vhCoordinator(map[string]interface{}{}, true)
+	var sb strings.Builder
+	sb.WriteString("ROUTES")
+	for i := 0; i < n; i++ {
+		method, pat := t.next(), vhUnhex(t.next())
+		name := "-"
+		if h, ps, _ := coordinator.router.Lookup(method, pat); h != nil {
+			want := 0
+			ok := true
+			for _, seg := range strings.Split(pat, "/") {
+				if strings.HasPrefix(seg, ":") {
+					if want >= len(ps) || ps[want].Key != seg[1:] || ps[want].Value != seg {
+						ok = false
+						break
+					}
+					want++
+				}
+			}
+			if ok && want == len(ps) {
+				full := runtime.FuncForPC(reflect.ValueOf(h).Pointer()).Name()
+				full = strings.TrimSuffix(full, "-fm")
+				name = full[strings.LastIndex(full, ".")+1:]
+			}
+		}
+		fmt.Fprintf(&sb, " %s %s %s", method, vhHex(pat), name)
+	}
+	return sb.String()
+}
+
 // Hooks for the storage-backed probe (verif_http_e2e_probe_test.go).  It has to live in the external test package
 // httpserver_test: the storage package imports httpserver, so an in-package test file cannot import storage.
 var VerifE2E func(fields []string) string
@@ -530,6 +568,8 @@ func vhRunLine(line string) (res string) {
 		return vhReq(t)
 	case "leak":
 		return vhLeak(t)
+	case "routes":
+		return vhRoutes(t)
 	case "e2e":
 		if VerifE2E == nil {
 			return "PROBE-ERROR e2e hook not registered"
